@@ -93,6 +93,32 @@ theorem unmarshalUint_in_bounds (buf : Bytes) (n v : Nat) (h : unmarshalUint buf
     0 < n ∧ n ≤ buf.length ∧ v < 2 ^ 64 :=
   unmarshalUint_bounds h
 
+/-- the decoding loop on a strict prefix of a varint encoding runs into the end of the input -/
+theorem unmarshalUintGo_truncated (v : Nat) : ∀ (k idx shft res : Nat), k < numGroups v →
+    unmarshalUintGo ((enc v).take k) idx shft res = .err := by
+  induction v using Nat.strongRecOn with
+  | _ v ih =>
+    intro k idx shft res hk
+    cases k with
+    | zero => simp [unmarshalUintGo]
+    | succ k =>
+      by_cases h : v > 127
+      · rw [numGroups_step h] at hk
+        rw [enc_step h, List.take_succ_cons, unmarshalUintGo]
+        have hb : ¬ (128 + v % 128 ≤ 127) := by omega
+        simp only [if_neg hb]
+        exact ih (v / 128) (by omega) k _ _ _ (by omega)
+      · have hv : v ≤ 127 := by omega
+        rw [numGroups_small hv] at hk
+        omega
+
+/-- C16.truncated_varint_rejected: every strict prefix of the encoding of any value is reported
+as an error (never decoded to some other value, never read past its end). -/
+theorem truncated_varint_rejected (v k : Nat) (hk : k < (enc v).length) :
+    unmarshalUint ((enc v).take k) = .err := by
+  rw [enc_length] at hk
+  exact unmarshalUintGo_truncated v k 0 0 0 hk
+
 /-- regression witness: the pre-repair length test panics on `ff×9 01` (D3) -/
 theorem total_fails_legacy :
     unmarshalBytesLegacy [255, 255, 255, 255, 255, 255, 255, 255, 255, 1] = .panic := by
